@@ -256,6 +256,19 @@ def run(ctx, idx):
     if not {"int", "float"} <= kinds_seen and not probs:
         probs.append("text can no longer clean to both an integer and a decimal")
     ctx.ob("C20.e", "%s::number-text" % np_.key, K.rel(np_), np_.node.lineno, not probs, "text -> int(text), else float(text)" if not probs else probs[0])
+    # `x in "literal"` is a substring test, not a choice among words ('' and every fragment are accepted)
+    pmod_ = idx.module_of("mpilot.params")
+    n_sub = 0
+    for ci_ in pmod_.classes.values():
+        cl_ = ci_.methods.get("clean")
+        if cl_ is None:
+            continue
+        for n in own_nodes(cl_.node):
+            if isinstance(n, ast.Compare) and len(n.ops) == 1 and isinstance(n.ops[0], (ast.In, ast.NotIn)) and isinstance(n.comparators[0], ast.Constant) and isinstance(n.comparators[0].value, str):
+                n_sub += 1
+                ctx.violate("C20.e", "%s::substring-test" % cl_.key, K.rel(cl_), n.lineno, "`%s` tests whether the value is a SUBSTRING of %r (a parenthesised string is not a tuple): the empty string and every fragment of the word are accepted as if they were the word instead of being rejected" % (K.src(n), n.comparators[0].value))
+    if not n_sub:
+        ctx.hold("C20.e", "mpilot/params.py::cleaners::no-substring-tests", "mpilot/params.py", 1, "no cleaner tests membership in a string literal", nontrivial=False)
     bp = idx.cls("mpilot.params", "BooleanParameter").methods.get("clean")
     # the words recognised: string constants in the method and the keys of module-level tables it consults
     words = {n.value.lower() for n in own_nodes(bp.node) if isinstance(n, ast.Constant) and isinstance(n.value, str)}
